@@ -656,40 +656,3 @@ Proof.
   apply mark_avail_G. exact H1.
 Qed.
 
-(* ---------- reload ---------- *)
-Lemma restore_G : forall cfg old m n l pend,
-  InvG cfg (fl m) (m_sets m) (m_bits m) pend ->
-  let m' := restore cfg old m n l in InvG cfg (fl m') (m_sets m') (m_bits m') pend.
-Proof.
-  intros cfg old m n l pend H m'. subst m'. unfold restore.
-  cbn [fold_left all_idx fst snd app].
-  set (x' := {| md_alive := _; md_fail := _; md_traffic := _ |}).
-  (* flags of the rewritten dialer: every type reads the old generation's flag *)
-  assert (Hx : forall d, d_alive x' d = md_alive old (canon (index_of d))).
-  { intros d. subst x'. unfold d_alive. cbn [md_alive]. destruct d; reflexivity. }
-  set (m1 := set_dialer m n x').
-  assert (F1 : forall x d', fl m1 x d' = if x =? n then md_alive old (canon (index_of d')) else fl m x d').
-  { intros. subst m1. unfold fl, set_dialer; cbn [m_d]. unfold upd. destruct (x =? n); [apply Hx|reflexivity]. }
-  (* all six types of n become pending, then each inform repairs one of them *)
-  assert (P0 : InvG cfg (fl m1) (m_sets m1) (m_bits m1) (fun x d' => pend x d' || (x =? n))).
-  { eapply InvG_weaken; [exact H|]. intros x d' Hp. apply orb_false_iff in Hp. destruct Hp as (Hp & Hn).
-    split; [exact Hp|]. rewrite F1, Hn. reflexivity. }
-  assert (Step : forall (mm : mstate) (pp pq : N -> dom -> bool) i b w,
-            InvG cfg (fl mm) (m_sets mm) (m_bits mm) pp -> fl mm n (dom_of_idx i) = b ->
-            (forall x d', pq x d' = false -> pp x d' = false \/ (x = n /\ d' = dom_of_idx i)) ->
-            let mm' := (if xorb w b then log_transition (inform cfg mm n (dom_of_idx i) b l) n (dom_of_idx i) b
-                        else inform cfg mm n (dom_of_idx i) b l) in
-            InvG cfg (fl mm') (m_sets mm') (m_bits mm') pq /\ (forall x d', fl mm' x d' = fl mm x d')).
-  { intros mm pp pq i b w Hm Hb Hq mm'.
-    assert (E : forall x d', fl (inform cfg mm n (dom_of_idx i) b l) x d' = fl mm x d')
-      by (intros; unfold fl; destruct (inform_health cfg mm n (dom_of_idx i) b l) as (-> & _); reflexivity).
-    assert (G : InvG cfg (fl (inform cfg mm n (dom_of_idx i) b l)) (m_sets (inform cfg mm n (dom_of_idx i) b l))
-                     (m_bits (inform cfg mm n (dom_of_idx i) b l)) pq).
-    { eapply InvG_ext; [eapply inform_fix; [exact Hm|exact Hb|exact Hq]|exact E|reflexivity|reflexivity]. }
-    subst mm'. destruct (xorb w b); split; try exact G; exact E. }
-  cbv beta iota zeta.
-  repeat match goal with
-  | |- InvG cfg (fl (if xorb ?w ?b then log_transition (inform cfg ?mm n (dom_of_idx ?i) ?b l) n (dom_of_idx ?i) ?b
-                      else inform cfg ?mm n (dom_of_idx ?i) ?b l)) _ _ _ => idtac
-  end.
-Abort.
